@@ -29,7 +29,7 @@ func runC01(c *ShardCtx) {
 		n, l = 6, 4
 	}
 	en := peg.NewEnumerator(peg.Alphabet{Leaves: baseLeaves(), Unary: allUnary, Seq: true, Choice: true, MaxArity: 3})
-	fam := &family{gens: gens4, inputs: peg.Inputs([]string{"a", "b"}, l), opts: []rtapi.RunOpts{{MaxExpr: 600}}, nontrivial: nontriv}
+	fam := &family{gens: gens4, inputs: peg.Inputs([]string{"a", "b"}, l), opts: []rtapi.RunOpts{{MaxExpr: 600}}, nontrivial: nontriv, confEvery: 97, confQuota: 1}
 	for size := 1; size <= n; size++ {
 		for _, body := range en.Size(size) {
 			idx++
@@ -49,7 +49,7 @@ func runC01(c *ShardCtx) {
 	if c.Thorough() {
 		n2 = 4
 	}
-	fam2 := &family{gens: gens4, inputs: peg.Inputs([]string{"a", "A", "b", "B", "é", "É", "1"}, 2), opts: []rtapi.RunOpts{{MaxExpr: 600}}, nontrivial: nontriv}
+	fam2 := &family{gens: gens4, inputs: peg.Inputs([]string{"a", "A", "b", "B", "é", "É", "1"}, 2), opts: []rtapi.RunOpts{{MaxExpr: 600}}, nontrivial: nontriv, confEvery: 97, confQuota: 1}
 	for _, body := range en2.UpTo(n2) {
 		idx++
 		if !c.Mine(idx) {
@@ -72,7 +72,7 @@ func runC01(c *ShardCtx) {
 	for _, ep := range []*string{nil, strp(""), strp("A"), strp("S"), strp("Zz")} {
 		eps = append(eps, rtapi.RunOpts{MaxExpr: 600, Entrypoint: ep})
 	}
-	fam3 := &family{gens: gens2, inputs: peg.Inputs([]string{"a", "b"}, 3), opts: eps, nontrivial: nontriv}
+	fam3 := &family{gens: gens2, inputs: peg.Inputs([]string{"a", "b"}, 3), opts: eps, nontrivial: nontriv, confEvery: 97, confQuota: 1}
 	for _, body := range en3.UpTo(n3) {
 		if len(peg.RefsOf(body)) == 0 {
 			continue
@@ -93,7 +93,7 @@ func runC01(c *ShardCtx) {
 	if c.Thorough() {
 		n4 = 5
 	}
-	fam4 := &family{gens: gens2, inputs: peg.Inputs([]string{"a", "b"}, 3), opts: []rtapi.RunOpts{{MaxExpr: 600}}, nontrivial: nontriv}
+	fam4 := &family{gens: gens2, inputs: peg.Inputs([]string{"a", "b"}, 3), opts: []rtapi.RunOpts{{MaxExpr: 600}}, nontrivial: nontriv, confEvery: 97, confQuota: 1}
 	for _, body := range en.UpTo(n4) {
 		for pos := range peg.Nodes(body) {
 			idx++
